@@ -277,18 +277,23 @@ var baseBoundaryN = []int{127, 128, 129, 255, 256, 257, 300, 511, 512, 513,
 
 var baseSmallN = []int{1, 2, 3, 7, 8, 9, 15, 16, 17, 31, 32, 33, 63, 64, 65}
 
-// drawBaseN draws a batch size for a base OT.  With probability
-// (100-pLarge)% it is a small size in 1..small (uniform or from
-// baseSmallN), else a size up to large: uniform in 1..large or an entry of
-// baseBoundaryN that is <= large.  The small modes have the low mode values
-// so a failing large batch shrinks towards the smallest failing size.
-func drawBaseN(t *rapid.T, small, large, pLarge int) int {
-	mode := rapid.IntRange(0, 99).Draw(t, "nmode")
-	if large <= small {
-		pLarge = 0
+// drawBaseN draws a batch size for a base OT.  mode 0..9: the highest
+// `tenths` modes give a large size (<= large), the others a small one in
+// 1..small (uniform or from baseSmallN).  Large sizes are an entry of
+// baseBoundaryN, a boundary B of {128,256,512,1024} plus a signed offset in
+// -40..40 (rapid favours small magnitudes, so both sides next to B are
+// frequent), or 129 plus a non-negative offset.  rapid's integers are
+// biased towards small values: the small modes have the low mode values, so
+// a failing large batch shrinks towards the smallest failing size, and the
+// share of large sizes is measured by the classes (n>256 ...), not assumed.
+func drawBaseN(t *rapid.T, small, large, tenths int) int {
+	mode := rapid.IntRange(0, 9).Draw(t, "nmode")
+	if large <= small || large < 130 {
+		tenths = 0
 	}
+	var n int
 	switch {
-	case mode < 100-pLarge:
+	case mode < 10-tenths:
 		if mode%2 == 0 {
 			return rapid.IntRange(1, small).Draw(t, "n")
 		}
@@ -297,18 +302,27 @@ func drawBaseN(t *rapid.T, small, large, pLarge int) int {
 			k++
 		}
 		return baseSmallN[rapid.IntRange(0, k-1).Draw(t, "nidx")]
-	case mode < 100-pLarge/2:
-		return rapid.IntRange(1, large).Draw(t, "nlarge")
-	default:
+	}
+	switch rapid.IntRange(0, 2).Draw(t, "nkind") {
+	case 1:
 		k := 0
 		for k < len(baseBoundaryN) && baseBoundaryN[k] <= large {
 			k++
 		}
-		if k == 0 {
-			return rapid.IntRange(1, large).Draw(t, "nlarge")
+		n = baseBoundaryN[rapid.IntRange(0, k-1).Draw(t, "nbidx")]
+	case 0:
+		k := 0
+		for k < 3 && 128<<(k+1) < large {
+			k++
 		}
-		return baseBoundaryN[rapid.IntRange(0, k-1).Draw(t, "nbidx")]
+		n = 128<<rapid.IntRange(0, k).Draw(t, "nbound") + rapid.IntRange(-40, 40).Draw(t, "noff")
+	default:
+		n = 129 + rapid.IntRange(0, large-129).Draw(t, "nlarge")
 	}
+	if n > large {
+		n = large
+	}
+	return n
 }
 
 // baseSizeClasses names the size range of a base-OT batch and, when n is
